@@ -16,7 +16,11 @@ if [ -f "$W/tests/seed_demo.rs" ]; then DEMO="tests/seed_demo.rs"; DEMOCMD="carg
 if [ -f "$W/examples/seed_demo.rs" ]; then DEMO="examples/seed_demo.rs"; DEMOCMD="cargo run --offline --example seed_demo"; fi
 [ -n "$DEMO" ] || { echo "no demo found"; exit 2; }
 cp "$W/$DEMO" "$D/$(basename $DEMO)"
-LOG="$D/confirm.log"; : > "$LOG"
+LOG="$D/confirm.log"
+if [ -n "${REUSE_CONFIRM:-}" ] && [ -f "$D/confirm.rc" ]; then
+  . "$D/confirm.rc"
+else
+: > "$LOG"
 cd "$W" || exit 2
 git checkout -q -- src
 echo "## unmodified library: demo must pass" >> "$LOG"
@@ -30,13 +34,15 @@ cargo test --offline --lib --test triangle >> "$LOG" 2>&1; RC_T=$?
 echo "## with patch: demo must fail" >> "$LOG"
 ( $DEMOCMD ) >> "$LOG" 2>&1; RC_SEED=$?
 git checkout -q -- src
+echo "RC_CLEAN=$RC_CLEAN; RC_B1=$RC_B1; RC_B2=$RC_B2; RC_T=$RC_T; RC_SEED=$RC_SEED" > "$D/confirm.rc"
+fi
 echo "confirm: demo_on_clean_rc=$RC_CLEAN build_rc=$RC_B1/$RC_B2 existing_tests_rc=$RC_T demo_with_patch_rc=$RC_SEED"
 CONFIRMED=false
 if [ $RC_CLEAN -eq 0 ] && [ $RC_B1 -eq 0 ] && [ $RC_B2 -eq 0 ] && [ $RC_T -eq 0 ] && [ $RC_SEED -ne 0 ]; then CONFIRMED=true; fi
 # run the checks against /repo with the patch applied
 cd /verif
 RESULTS=""
-if $CONFIRMED; then
+if $CONFIRMED && [ -z "${SKIP_REPO:-}" ]; then
   git -C /repo apply "$D/patch.diff" || { echo "patch does not apply to /repo"; exit 2; }
   for c in $CHECKS; do
     OUT=$(./check "$c" quick 2>&1); RC=$?
